@@ -38,6 +38,11 @@ THEOREMS = [
     "C17_xf_dataclass_def_witness",
     "C17_xf_rerun_repaired",
     "C17_xf_rerun_witness",
+    "C17_bind_positions",
+    "C17_default_identity",
+    "C17_default_copy_witness",
+    "C17_xf_list_index_order",
+    "C17_xf_list_sorted_witness",
 ]
 RULE = (
     "generated definitions written to REAL source files in the case's cwd and imported from there (inspect/ast "
@@ -102,7 +107,12 @@ def _split_top(s: str) -> list[str]:
 
 
 def val(t: str):
-    """token -> python value (input side only: ints, strs, None, bools, lists, tuples, dicts)"""
+    """token -> python value (input side only: ints, strs, None, bools, lists, tuples, dicts; `@<k>.<kind>` is THE
+    pool object number k of nodes_c17 -- an object with an identity)"""
+    if t.startswith("@"):
+        from .nodes_c17 import POOL, pool_index
+
+        return POOL[pool_index(t)]
     if t == "None":
         return None
     if t == "bT":
@@ -132,10 +142,13 @@ def tok(v) -> str:
 
     from pyiron_workflow.channels import NOT_DATA
 
-    from .nodes_c17 import Term
+    from .nodes_c17 import Term, pool_token
 
     if v is NOT_DATA:
         return "ND"
+    pt = pool_token(v)  # by IDENTITY, before anything that would ask the object about itself (`==`, `bool`)
+    if pt is not None:
+        return pt
     if v is None:
         return "None"
     if isinstance(v, bool):
@@ -166,8 +179,23 @@ def tok(v) -> str:
 
 
 def lit(t: str) -> str:
-    """token -> python source literal"""
+    """token -> python source expression (a pool object is NAMED, `_P[k]`, so that every function / class of the
+    generated file that uses it as a default shares the one object)"""
+    if t.startswith("@"):
+        from .nodes_c17 import pool_index
+
+        return f"_P[{pool_index(t)}]"
+    assert "@" not in t, t
     return repr(val(t))
+
+
+def is_pool(t) -> bool:
+    return isinstance(t, str) and t.startswith("@")
+
+
+def looks(t: str) -> str:
+    """what a token looks like when identity is ignored: a copy `~k.kind` of a pool object looks like `@k.kind`"""
+    return t.replace("~", "@")
 
 
 # ----------------------------------------------------------------------------- generation
@@ -177,9 +205,15 @@ class _Ctr:
     def __init__(self):
         self.k = 100
 
-    def fresh(self, rng, ann):
+    def fresh(self, rng, ann, alts=None):
+        """a fresh value token fitting the annotation; `alts` = pool objects this parameter should also be given
+        explicitly (its own default object, a look-alike of the same kind, some other object with an identity)"""
         self.k += 1
         k = self.k
+        if alts and rng.random() < 0.6:
+            return rng.choice(alts)
+        if ann in ("object", "typing.Any"):
+            ann = None
         if ann is None:
             return rng.choice([f"i{k}", f"sv{k}", "None", f"list(i{k})", f"i{k}"])
         if ann == "int":
@@ -203,6 +237,16 @@ class _Ctr:
         raise ValueError(ann)
 
 
+def _natural(name: str):
+    """x2 < x10: split a trailing number off"""
+    head = name.rstrip("0123456789")
+    return (head, int(name[len(head):] or -1))
+
+
+#: sizes at and past the points where the order of the labels as strings and their numeric order part ways
+BIG = [10, 11, 12, 21, 100, 101]
+
+
 def all_valid_splits(names):
     n = len(names)
     for p in range(n + 1):
@@ -215,20 +259,30 @@ def all_valid_splits(names):
 def _mk_args(rng, ctr, params, p, keys):
     """[positional tokens, {key: token}] for the first p parameters positionally and `keys` by keyword"""
     ann = {q["name"]: q.get("ann") for q in params}
+    alts = {q["name"]: q.get("alts") for q in params}
     pos = []
     for i in range(p):
         a = params[i].get("ann") if i < len(params) else None
-        pos.append(ctr.fresh(rng, a))
-    ks = sorted(keys)  # sets of strings iterate in hash order: sort first for a seeded, reproducible case
-    rng.shuffle(ks)
-    return [pos, {k: ctr.fresh(rng, ann.get(k)) for k in ks}]
+        pos.append(ctr.fresh(rng, a, params[i].get("alts") if i < len(params) else None))
+    ks = sorted(keys, key=_natural)  # sets of strings iterate in hash order: sort first for a seeded, reproducible case
+    r = rng.random()
+    if r < 0.2:
+        ks.reverse()  # keywords written back to front (item_11=…, item_10=…, …)
+    elif r < 0.8:
+        rng.shuffle(ks)
+    return [pos, {k: ctr.fresh(rng, ann.get(k), alts.get(k)) for k in ks}]
 
 
 def gen_run(rng, ctr, params, again_p=0.3):
     n = len(params)
     names = [q["name"] for q in params]
-    p1 = min(n, rng.choice([0, 0, 0, 0, 1, 1, 2, 3, n]))
-    p2 = min(n, rng.choice([0, 0, 0, 1, 1, 2, 3, n, n]))
+    if n >= 10:
+        # positional / keyword splits on both sides of the one-digit boundary
+        p1 = min(n, rng.choice([0, 0, 2, 5, 9, 10, 11, n - 1, n]))
+        p2 = min(n, rng.choice([0, 0, 1, 9, 10, 11, 12, n - 1, n]))
+    else:
+        p1 = min(n, rng.choice([0, 0, 0, 0, 1, 1, 2, 3, n]))
+        p2 = min(n, rng.choice([0, 0, 0, 1, 1, 2, 3, n, n]))
     k1 = {x for x in names[p1:] if rng.random() < 0.25}
     k2 = {x for x in names[p2:] if rng.random() < 0.4}
     covered = set(names[:p1]) | set(names[:p2]) | k1 | k2
@@ -257,10 +311,37 @@ def gen_run(rng, ctr, params, again_p=0.3):
     return run
 
 
-def gen_params(rng, n):
-    names = rng.sample(NAMES, n)
+def pool_default(rng, hashable=False):
+    """a default that is an object with an identity: (annotation, its token, the tokens a caller might pass instead:
+    the very object, a look-alike of the same kind, an unrelated object)"""
+    from .nodes_c17 import HASHABLE_KINDS, KINDS, siblings
+
+    cand = [k for k, kind in enumerate(KINDS) if not hashable or kind in HASHABLE_KINDS]
+    k = rng.choice(cand)
+    kind = KINDS[k]
+    if kind == "list":
+        ann = rng.choice([None, "list", "object"])
+    elif kind == "dict":
+        ann = rng.choice([None, "dict", "typing.Any"])
+    else:
+        ann = rng.choice([None, None, "object", "typing.Any"])
+    t = f"@{k}.{kind}"
+    alts = [t] + [f"@{j}.{KINDS[j]}" for j in siblings(k)]
+    if ann in (None, "object", "typing.Any"):
+        j = rng.choice(cand)
+        alts.append(f"@{j}.{KINDS[j]}")
+    return ann, t, alts
+
+
+def gen_params(rng, n, pool_p=0.3):
+    if n <= len(NAMES) and rng.random() < 0.85:
+        names = rng.sample(NAMES, n)
+    else:
+        names = [f"x{i + 1}" for i in range(n)]  # x1 … x12: the order as strings is not the order of the parameters
     ndef = rng.choice([0, 0, 1, 2, n]) if n else 0
-    ndef = min(ndef, n)
+    if n >= 10:
+        ndef = rng.choice([0, 1, 2, n - 9, n - 10 if n > 10 else 1, n])
+    ndef = max(0, min(ndef, n))
     ctr = _Ctr()
     ctr.k = 0
     params = []
@@ -268,7 +349,14 @@ def gen_params(rng, n):
         ann = rng.choice(ANNS)
         q = {"name": name, "ann": ann, "default": None}
         if i >= n - ndef:
-            q["default"] = ctr.fresh(rng, ann)
+            if rng.random() < pool_p:
+                q["ann"], q["default"], q["alts"] = pool_default(rng)
+            else:
+                q["default"] = ctr.fresh(rng, ann)
+        elif ann is None and rng.random() < 0.1:
+            # a required parameter that is handed objects with an identity
+            _a, t, alts = pool_default(rng)
+            q["alts"] = alts
         params.append(q)
     return params
 
@@ -276,6 +364,11 @@ def gen_params(rng, n):
 def gen_fn_case(rng, tier, idx, n=None, exhaustive=False):
     n = rng.choice([0, 1, 1, 2, 2, 3, 3, 4, 5]) if n is None else n
     params = gen_params(rng, n)
+    from .nodes_c17 import IDENTITY_KINDS
+
+    # parameters whose default is an object a body would recognise by `is`
+    idp = [i for i, q in enumerate(params)
+           if is_pool(q.get("default")) and q["default"].split(".", 1)[1] in IDENTITY_KINDS]
     if n >= 1 and not exhaustive and rng.random() < 0.02:
         # a parameter named like a keyword of Node.__init__: the definition is refused
         params[rng.randrange(n)]["name"] = rng.choice(["label", "parent", "autorun", "args", "kwargs", "checkpoint"])
@@ -295,6 +388,12 @@ def gen_fn_case(rng, tier, idx, n=None, exhaustive=False):
                 continue
         argl = ", ".join(q["name"] for q in params)
         call = f"_T({j}{', ' if argl else ''}{argl})"
+        if idp and rng.random() < 0.5:
+            # the returned value depends on `<parameter> is <its default object>` (the sentinel idiom)
+            i = rng.choice(idp)
+            other = f"_T({j + 50}, {argl})"
+            rets.append([f"I{j}:{i}", f"r{j}", f"r{j} = {call} if {params[i]['name']} is {lit(params[i]['default'])} else {other}", "_T"])
+            continue
         if kind == "t":
             rets.append([f"t{j}", f"r{j}", f"r{j} = {call}", "_T"])
         else:
@@ -398,15 +497,29 @@ def _item_params(pre, n, ann=None):
 
 def gen_xf_case(rng, tier, idx, kind=None, n=None):
     kind = kind or rng.choice(["list", "dict", "df", "unpack", "dc", "dc"])
-    n = rng.randrange(0, 6) if n is None else n
+    if n is None:
+        n = rng.randrange(0, 6) if rng.random() < 0.93 else rng.choice(BIG[:4] + [13, 20, 22, 30])
     ctr = _Ctr()
     nruns = 6 if tier == "quick" else 12
+    if n >= 10:
+        nruns = 3 if tier == "quick" else 6
     case = {"kind": kind, "id": f"{tier[0]}x{idx}", "n": n, "api": rng.choice(["class", "helper"])}
     if kind == "list":
         params = _item_params("item_", n)
+        if rng.random() < 0.3:
+            for q in params:
+                if rng.random() < 0.3:
+                    q["alts"] = pool_default(rng)[2]
         case["runs"] = [gen_run(rng, ctr, params) for _ in range(nruns)]
     elif kind == "dict":
-        names = rng.sample(NAMES + ["k1", "k2", "k3"], n)
+        alts = {}
+        if n <= 8 and rng.random() < 0.8:
+            names = rng.sample(NAMES + ["k1", "k2", "k3"], n)
+        else:
+            pre = rng.choice(["k", "key_", "x"])
+            names = [f"{pre}{i}" for i in range(n)]  # generated keys: k10 sorts before k2
+            if rng.random() < 0.3:
+                rng.shuffle(names)  # the specification's order is the order, whatever the keys look like
         if rng.random() < 0.5:
             case["spec"] = [[x, None, None] for x in names]  # plain list of keys
             case["spec_form"] = "list"
@@ -415,10 +528,12 @@ def gen_xf_case(rng, tier, idx, kind=None, n=None):
             for x in names:
                 ann = rng.choice([None, "int", "str", "bool"])  # the specification must be hashable
                 d = ctr.fresh(rng, ann or rng.choice(["int", "str", "None"])) if rng.random() < 0.4 else None
+                if rng.random() < 0.15:
+                    ann, d, alts[x] = pool_default(rng, hashable=True)  # a default that is an object with an identity
                 spec.append([x, ann, d])
             case["spec"] = spec
             case["spec_form"] = "dict"
-        params = [{"name": x, "ann": a, "default": d} for x, a, d in case["spec"]]
+        params = [{"name": x, "ann": a, "default": d, "alts": alts.get(x)} for x, a, d in case["spec"]]
         case["runs"] = [gen_run(rng, ctr, params) for _ in range(nruns)]
     elif kind == "df":
         params = _item_params("row_", n, "dict")
@@ -465,20 +580,32 @@ def gen_xf_case(rng, tier, idx, kind=None, n=None):
         case["runs"] = runs
     elif kind == "dc":
         n = max(n, 1) if rng.random() < 0.9 else n
-        names = rng.sample(NAMES, n)
+        if n <= len(NAMES) and rng.random() < 0.85:
+            names = rng.sample(NAMES, n)
+        else:
+            names = [f"x{i + 1}" for i in range(n)]
         nreq = rng.randrange(0, n + 1)
+        if n >= 10:
+            nreq = rng.choice([0, 1, 9, 10, n - 1, n])
         fields = []
+        alts = {}
         for i, x in enumerate(names):
             ann = rng.choice(["int", "str", "list", "int | None", "typing.Optional[str]", "bool"])
             if i < nreq:
                 fields.append([x, ann, "n", None])
+            elif rng.random() < 0.25:
+                # the field default / the product of the default factory is an object with an identity (dataclasses
+                # itself refuses unhashable plain defaults)
+                k = rng.choice(["v", "v", "f"])
+                ann, d, alts[x] = pool_default(rng, hashable=(k == "v"))
+                fields.append([x, ann or "object", k, d])
             else:
                 k = rng.choice(["v", "f", "f"]) if ann != "list" else "f"  # mutable defaults need a factory
                 fields.append([x, ann, k, ctr.fresh(rng, ann)])
         case["fields"] = fields
         case["already"] = rng.random() < 0.5
         case["how"] = rng.choice(["decorator", "decorator", "prior"])
-        params = [{"name": x, "ann": a, "default": d} for x, a, _k, d in fields]
+        params = [{"name": x, "ann": a, "default": d, "alts": alts.get(x)} for x, a, _k, d in fields]
         case["runs"] = [gen_run(rng, ctr, params) for _ in range(nruns)]
     return case
 
@@ -508,6 +635,17 @@ def gen_cases(rng, tier):
         j = 0
         for n in (0, 1, 2, 2, 3):
             yield gen_fn_case(rng, tier, 100000 + j, n=n, exhaustive=True)
+            j += 1
+    # sizes and arities past one digit (labels item_10 / row_11 / x12 …), in BOTH tiers
+    big = {"list": BIG, "unpack": BIG, "dict": BIG[:5], "df": BIG[:4] + [101], "dc": BIG[:4] + ([100] if tier == "thorough" else [])}
+    j = 0
+    for rep in range(1 if tier == "quick" else 4):
+        for kind, sizes in big.items():
+            for n in sizes:
+                yield gen_xf_case(rng, tier, 300000 + j, kind=kind, n=n)
+                j += 1
+        for n in BIG[:4] + ([30] if tier == "thorough" else []):
+            yield gen_fn_case(rng, tier, 300000 + j, n=n)
             j += 1
     yield {"kind": "malformed", "id": "m0",
            "lines": ["call 0", "inst x", "def fn q", "def dc 2", "param", "again", "frobnicate 1 2",
@@ -616,6 +754,7 @@ def fn_source(case, h):
         "from pyiron_workflow import as_function_node",
         "from pyiron_workflow.nodes.function import function_node, to_function_node",
         "from pwh.nodes_c17 import Term as _T",
+        "from pwh.nodes_c17 import POOL as _P",
         "",
         f"def bare_{h}({sig}){ann}:",
         body_src,
@@ -639,7 +778,8 @@ def fn_source(case, h):
 
 
 def dc_source(case, h):
-    lines = ["import typing", "import dataclasses", "from dataclasses import dataclass, field", ""]
+    lines = ["import typing", "import dataclasses", "from dataclasses import dataclass, field",
+             "from pwh.nodes_c17 import POOL as _P", ""]
     for x, _ann, k, d in case["fields"]:
         if k == "f":
             lines += [f"def _fac_{x}():", f"    return {lit(d)}", ""]
@@ -808,7 +948,10 @@ def _classify_def(e):
 
 
 def _reference(sig_params, a1, k1, a2, k2):
-    """Python's own binding: returns ('refuse1'|'refuse2'|'missing'|'ok', merged kwargs in parameter order)"""
+    """Python's own binding of the two argument splits: {"status": 'refuse1'|'refuse2'|'missing'|'ok', "b1": what the
+    construction binds, "explicit": the arguments that were passed at all (call over construction), in parameter order;
+    parameters left out are NOT filled in here -- that is left to Python's own default mechanism when the bare
+    function / dataclass is called with `explicit`}"""
     import inspect
 
     P = inspect.Parameter
@@ -819,22 +962,21 @@ def _reference(sig_params, a1, k1, a2, k2):
     try:
         b1 = sig.bind_partial(*a1, **k1).arguments
     except TypeError:
-        return "refuse1", None
+        return {"status": "refuse1"}
     try:
         b2 = sig.bind_partial(*a2, **k2).arguments
     except TypeError:
-        return "refuse2", None
-    merged = {}
+        return {"status": "refuse2", "b1": dict(b1)}
+    explicit = {}
+    status = "ok"
     for name, dflt in sig_params:
         if name in b2:
-            merged[name] = b2[name]
+            explicit[name] = b2[name]
         elif name in b1:
-            merged[name] = b1[name]
-        elif dflt is not inspect.Parameter.empty:
-            merged[name] = dflt
-        else:
-            return "missing", None
-    return "ok", merged
+            explicit[name] = b1[name]
+        elif dflt is inspect.Parameter.empty:
+            status = "missing"
+    return {"status": status, "b1": dict(b1), "explicit": explicit}
 
 
 def run_impl(case):
@@ -872,7 +1014,8 @@ def _run(case, h, modname, variant):
 
     make_inst = None  # (args, kwargs) -> node
     ref_params = None  # [(name, default|E)]
-    ref_fn = None  # merged kwargs -> expected returned object
+    ref_fn = None  # explicitly passed kwargs -> expected returned object
+    py_defaults = None  # per parameter: the default OBJECT as python itself reports it (E = none)
     cls = None
 
     # ---- definition -------------------------------------------------------------------------
@@ -884,7 +1027,9 @@ def _run(case, h, modname, variant):
             mod = importlib.import_module(modname)
             bare = getattr(mod, f"bare_{h}")
             ref_params = [(q["name"], E if q["default"] is None else val(q["default"])) for q in case["params"]]
-            ref_fn = lambda m: bare(**m)  # noqa: E731
+            # the BARE function called with the arguments that were passed, the rest left to Python's own defaults
+            ref_fn = lambda ex: bare(**ex)  # noqa: E731
+            py_defaults = [pp.default for pp in inspect.signature(bare).parameters.values()]
             api = case["api"]
             if api == "to_fn":
                 cls = mod.make()
@@ -910,6 +1055,7 @@ def _run(case, h, modname, variant):
             make_inst = (lambda a, k: T.inputs_to_list(n, *a, **k)) if case["api"] == "helper" else (lambda a, k: cls(*a, **k))
             ref_params = [(f"item_{i}", E) for i in range(n)]
             ref_fn = lambda m: [m[f"item_{i}"] for i in range(n)]  # noqa: E731
+            py_defaults = [E] * n
         elif kind == "dict":
             if case["spec_form"] == "list":
                 spec = [x for x, _a, _d in case["spec"]]
@@ -918,12 +1064,16 @@ def _run(case, h, modname, variant):
             cls = T.inputs_to_dict_factory(spec, None)
             make_inst = (lambda a, k: T.inputs_to_dict(spec, *a, **k)) if case["api"] == "helper" else (lambda a, k: cls(*a, **k))
             ref_params = [(x, E if d is None else val(d)) for x, _a, d in case["spec"]]
-            ref_fn = lambda m: dict(m)  # noqa: E731
+            py_defaults = [d for _x, d in ref_params]
+
+            def ref_fn(ex):  # the dictionary key -> value in the order of the specification, its defaults filled in
+                return {x: (ex[x] if x in ex else d) for x, d in ref_params}
         elif kind == "df":
             n = case["n"]
             cls = T.inputs_to_dataframe_factory(n)
             make_inst = (lambda a, k: T.inputs_to_dataframe(n, True, *a, **k)) if case["api"] == "helper" else (lambda a, k: cls(*a, **k))
             ref_params = [(f"row_{i}", E) for i in range(n)]
+            py_defaults = [E] * n
 
             def ref_fn(m):
                 from pandas import DataFrame
@@ -939,6 +1089,7 @@ def _run(case, h, modname, variant):
             cls = T.list_to_outputs_factory(n)
             make_inst = (lambda a, k: T.list_to_outputs(n, *a, **k)) if case["api"] == "helper" else (lambda a, k: cls(*a, **k))
             ref_params = [("list", E)]
+            py_defaults = [E]
             ref_fn = lambda m: ({f"item_{i}": v for i, v in enumerate(m["list"])} if len(m["list"]) <= n else _NoDemand)  # noqa: E731
         elif kind == "dc":
             with open(f"{modname}.py", "w") as f:
@@ -952,7 +1103,19 @@ def _run(case, h, modname, variant):
                 for D in Ds:
                     T.as_dataclass_node(D)  # an earlier use of the same class (node class thrown away)
             ref_params = [(x, E if k == "n" else val(d)) for x, _a, k, d in case["fields"]]
-            ref_fn = lambda m: B(**m)  # noqa: E731
+            # Python building the dataclass itself from the arguments that were passed: field defaults and default
+            # factories are applied by the dataclass machinery, not by this harness
+            ref_fn = lambda ex: B(**ex)  # noqa: E731
+            import dataclasses as _dcs
+
+            py_defaults = []
+            for fld in _dcs.fields(B):
+                if fld.default is not _dcs.MISSING:
+                    py_defaults.append(fld.default)
+                elif fld.default_factory is not _dcs.MISSING:
+                    py_defaults.append(fld.default_factory())
+                else:
+                    py_defaults.append(E)
             if case["api"] == "helper":
                 cls = type(T.dataclass_node(Ds[0], True))
                 use = iter(Ds[1:])
@@ -1046,13 +1209,24 @@ def _run(case, h, modname, variant):
         a1, k1 = _args(run["inst"])
         a2, k2 = _args(run["call"])
         rf: dict = {"inst": None, "call": None}
-        status, merged = _reference(ref_params, a1, k1, a2, k2)
+        ref = _reference(ref_params, a1, k1, a2, k2)
+        status = ref["status"]
         rf["py"] = status
         rf["py_ret"] = None
+        names = [nm for nm, _d in ref_params]
+        if "b1" in ref:
+            # what the input channels must hold once the node is built: the construction's value, else the default object
+            rf["py_inst"] = [tok(ref["b1"][nm]) if nm in ref["b1"] else ("ND" if d is E else tok(d))
+                             for nm, d in zip(names, py_defaults)]
         if status == "ok":
-            exp = ref_fn(merged)
+            ex = ref["explicit"]
+            exp = ref_fn(ex)
             rf["py_ret"] = None if exp is _NoDemand else tok(exp)
-            rf["py_args"] = [tok(v) for v in merged.values()]
+            if kind == "dc":
+                # "the dataclass built from the inputs": what the fields of Python's own instance hold
+                rf["py_args"] = [tok(getattr(exp, nm)) for nm in names]
+            else:
+                rf["py_args"] = [tok(ex[nm]) if nm in ex else tok(d) for nm, d in zip(names, py_defaults)]
         facts["runs"].append(rf)
         try:
             node = make_inst(a1, k1)
@@ -1064,6 +1238,7 @@ def _run(case, h, modname, variant):
             stats[f"inst:{c}"] = stats.get(f"inst:{c}", 0) + 1
             continue
         rf["inst"] = "ok"
+        rf["inst_ins"] = [tok(c.value) for _k, c in node.inputs.items()]
         obs.append(f"inst ok ins={_panel(node.inputs)}")
         obs.append(io_line(node))
         # the instance's channels against the definition, and against the class-level preview
@@ -1246,7 +1421,7 @@ def oracle(case, r):
     pi = F.get("preview_in") or {}
     if not pi.get("ok"):
         got, exp = pi.get("got"), pi.get("exp")
-        clause = "preview-inputs" if [g[0::2] for g in got or []] != [e[0::2] for e in exp or []] else "preview-input-hints"
+        clause = _in_clause(got or [], exp or [], "preview")
         fails.append(_f(case, clause, f"the definition says {exp} (label, hint, default), preview_io gives {got}", **sfacts))
     # outputs: one per returned value, labelled as declared or as written in the return statement
     po = F.get("preview_out")
@@ -1262,7 +1437,7 @@ def oracle(case, r):
                 continue
             ii, io = rf["io_in"], rf["io_out"]
             if not ii["ok"]:
-                clause = "instance-inputs" if [g[0::2] for g in ii["got"]] != [e[0::2] for e in ii["exp"]] else "instance-input-hints"
+                clause = _in_clause(ii["got"], ii["exp"], "instance")
                 fails.append(_f(case, clause, f"run #{i}: the definition says {ii['exp']}, the instance has {ii['got']}", **sfacts))
             elif not io["ok"]:
                 fails.append(_f(case, "instance-outputs", f"run #{i}: preview_io shows {io['exp']}, the instance has {io['got']}", **sfacts))
@@ -1283,6 +1458,13 @@ def oracle(case, r):
                                 "arguments, the node accepted them", **sfacts))
         elif rf["inst"] != "ok":
             fails.append(_f(case, "good-split-refused", f"{where}: construction raised {rf['inst']}", **sfacts))
+        elif rf.get("py_inst") is not None and rf["inst_ins"] != rf["py_inst"]:
+            # one input per parameter WITH THE PARAMETER'S DEFAULT: a freshly built node holds, per parameter, the value
+            # it was constructed with and else the default object itself (`held is default`, tokens are by identity)
+            ident = all(g == e or is_pool(e) for g, e in zip(rf["inst_ins"], rf["py_inst"]))
+            fails.append(_f(case, "default-identity" if ident else "inputs-at-construction",
+                            f"{where}: after construction the inputs must hold {rf['py_inst']} (values passed, else the "
+                            f"default objects), they hold {rf['inst_ins']}", **sfacts))
         elif py == "refuse2":
             if rf["call"] == "ret":
                 fails.append(_f(case, "bad-split-accepted", f"{where}: Python's binder refuses the call arguments, "
@@ -1327,6 +1509,18 @@ def oracle(case, r):
         if fails:
             break
     return fails[:1]
+
+
+def _in_clause(got, exp, prefix):
+    """which part of "one input per parameter, in order, with the parameter's default and annotation" is off"""
+    if [g[0] for g in got] != [e[0] for e in exp]:
+        return f"{prefix}-inputs"
+    if [g[2] for g in got] != [e[2] for e in exp]:
+        # only defaults that are objects with an identity differ: the channel holds something else than THE default
+        if all(g[2] == e[2] or is_pool(e[2]) for g, e in zip(got, exp)):
+            return "default-identity"
+        return f"{prefix}-inputs"
+    return f"{prefix}-input-hints"
 
 
 def val_items(t: str) -> list[str]:
